@@ -394,7 +394,9 @@ where
         let r = match self.refs.get(old.id)? {
             XRef::Free { .. } => panic!(),
             XRef::Raw { gen_nr, .. } => PlainRef { id: old.id, gen: gen_nr },
-            XRef::Stream { .. } => return self.create(obj),
+            // an object stored in an object stream keeps its number (generation 0 by definition);
+            // the new value is written as a direct object by `save`
+            XRef::Stream { .. } => PlainRef { id: old.id, gen: 0 },
             XRef::Promised => PlainRef { id: old.id, gen: 0 },
             XRef::Invalid => panic!()
         };
